@@ -43,7 +43,7 @@ def main():
         pb = f["per_base"]
         data_vals = [v for v in pb if v is not None]
         gmin, gmax = (min(data_vals), max(data_vals)) if data_vals else (None, None)
-        for s in range(-3, L):
+        for s in range(-3, L + 4):
             idx += 1
             if idx % nparts != part:
                 continue
@@ -63,16 +63,37 @@ def main():
             # advanced between the calls: every answer must equal the path-opened reader's, which
             # the oracle below judges
             import io
-            for src in ("file", "bytesio"):
+
+            class ShortReads:
+                """file-like object whose read(n) returns at most `k` bytes (legal for a raw stream)"""
+
+                def __init__(self, data, k):
+                    self.b, self.k = io.BytesIO(data), k
+
+                def read(self, n=-1):
+                    return self.b.read(self.k if n is None or n < 0 else min(n, self.k))
+
+                def seek(self, pos, whence=0):
+                    return self.b.seek(pos, whence)
+
+                def tell(self):
+                    return self.b.tell()
+
+            for src in ("file", "bytesio", "short13", "short1000"):
                 try:
-                    fobj = open(f["path"], "rb") if src == "file" else io.BytesIO(open(f["path"], "rb").read())
+                    if src == "file":
+                        fobj = open(f["path"], "rb")
+                    elif src == "bytesio":
+                        fobj = io.BytesIO(open(f["path"], "rb").read())
+                    else:
+                        fobj = ShortReads(open(f["path"], "rb").read(), int(src[5:]))
                     bf = pybigtools.open(fobj)
                     it = bf.records("c")
                     zit = None
                 except BaseException as ex:
                     fail("open_failed", [f["kind"], "file_like"], {"idx": idx, "file": f["path"], "start": s, "source": src}, repr(ex))
                     continue
-                for e in range(s + 1, L + 4):
+                for e in range(s + 1, max(L + 4, s + 4)):
                     n = e - s
                     case = {"idx": idx, "file": f["path"].split("/")[-1], "kind": f["kind"], "items": f["items"],
                             "start": s, "end": e, "source": src}
@@ -101,7 +122,7 @@ def main():
                                      f"reader opened from a {src} object with a live records() iterator gives {g1}, the path-opened reader {g0}")
                     except BaseException as ex:
                         fail("values_raised", [f["kind"], "file_like", src], case, repr(ex))
-            for e in range(s + 1, L + 4):
+            for e in range(s + 1, max(L + 4, s + 4)):
                 n = e - s
                 for (missing, oob) in fills:
                     finite_fill = not (math.isnan(missing) or math.isnan(oob))
